@@ -3,6 +3,7 @@
    patches/C11-01 (used only to validate the tie against an unpatched tree). -/
 import TboxModel.Util
 import TboxModel.C11.Model
+import TboxModel.C11.Arena
 open Tbox.Util Tbox.C11
 
 def evStr : Ev → String
@@ -107,19 +108,128 @@ def stepOp (rb : Bool) (f : Forest) (ws : List String) : Option (Forest × List 
       | _ => none
   | _ => none
 
-/-- driver state: the forest, and whether branch tags (`B` lines) are switched off for this case -/
-abbrev DState := Forest × Bool
+/-! ### arena side (hook scripts) -/
+open Tbox.C11.Arena in
+structure AState where
+  σ : Arena.Store := fun _ => {}
+  ids : List Nat := []
 
-def stepLine (rb : Bool) (st : DState) (ln : String) : DState × List String :=
+namespace AState
+open Tbox.C11.Arena
+
+def statesStr (a : AState) : String :=
+  let l := (a.ids.filter fun n => (a.σ n).alive).mergeSort (· ≤ ·)
+  if l.isEmpty then "-" else ",".intercalate (l.map fun n => toString n ++ ":" ++ stStr (a.σ n).st)
+
+def resLine (a : AState) (r : Res) : List String :=
+  let a' : AState := { a with σ := r.σ }
+  (if r.oof then ["M fuel-exhausted"] else []) ++
+  ["P ret=" ++ (if r.thrown then "X" else if r.ret then "1" else "0") ++ " tr=" ++ trStr r.tr ++ " st=" ++ a'.statesStr]
+
+def api? : String → Option Api
+  | "init" => some .init | "start" => some .start | "stop" => some .stop | "cleanup" => some .cleanup | _ => none
+
+def apiC? : Char → Option Api
+  | 'i' => some .init | 's' => some .start | 't' => some .stop | 'c' => some .cleanup | _ => none
+
+def hook? : String → Option Hook
+  | "i" => some .onInit | "s" => some .onStart | "t" => some .onStop | "c" => some .onCleanup | _ => none
+
+/-- `c<api>:<target>` | `a:<parent>:<child>:<req>` | `x` -/
+def act? (w : String) : Option Act :=
+  if w == "x" then some .throw
+  else match w.splitOn ":" with
+    | [h, t] => do
+        match h.toList with
+        | ['c', k] => pure (.call (← id? t) (← apiC? k))
+        | _ => none
+    | ["a", p, c, r] => do pure (.add (← id? p) (← id? c) (← bool? r))
+    | _ => none
+
+def acts? : List String → Option (List Act)
+  | [] => some []
+  | w :: ws => do pure ((← act? w) :: (← acts? ws))
+
+def step (g : Bool) (a : AState) (ws : List String) : Option (AState × List String × Bool) :=
+  match ws with
+  | ["new", n, nm, c, i, s] => do
+      let n ← id? n; let nm ← bool? nm; let c ← bool? c; let i ← bool? i; let s ← bool? s
+      if (a.σ n).alive then none
+      else
+        let a' : AState := { σ := a.σ.set n { alive := true, named := nm, cfg := c, initOk := i, startOk := s }, ids := a.ids ++ [n] }
+        pure (a', a'.resLine (Res.ok a'.σ true []), false)
+  | ["add", p, c, r] => do
+      let p ← id? p; let c ← id? c; let r ← bool? r
+      let (σ', ok) ← addOp a.σ p c r
+      pure ({ a with σ := σ' }, resLine { a with σ := σ' } (Res.ok σ' ok []), false)
+  | ["set", n, c, i, s] => do
+      let n ← id? n; let c ← bool? c; let i ← bool? i; let s ← bool? s
+      if !(a.σ n).alive then none
+      else
+        let σ' := a.σ.set n { a.σ n with cfg := c, initOk := i, startOk := s }
+        pure ({ a with σ := σ' }, resLine a (Res.ok σ' true []), false)
+  | "hook" :: n :: h :: rest => do
+      let n ← id? n; let h ← hook? h; let acts ← acts? rest
+      if !(a.σ n).alive then none
+      else
+        let σ' := a.σ.set n ((a.σ n).setSlot h acts)
+        pure ({ a with σ := σ' }, resLine a (Res.ok σ' true []), false)
+  | [op, n] => do
+      let n ← id? n
+      if !(a.σ n).alive || (a.σ n).hasParent then none
+      else if op == "destroy" then
+        let r := aDestroy g fuel0 a.σ n
+        pure ({ a with σ := r.σ }, resLine a r, false)
+      else
+        let ap ← api? op
+        let r := aCall g fuel0 a.σ n ap true
+        let r' := aCall (!g) fuel0 a.σ n ap true
+        let differs := r.tr != r'.tr || r.ret != r'.ret || r.thrown != r'.thrown
+        pure ({ a with σ := r.σ }, resLine a r, differs)
+  | _ => none
+end AState
+
+/-- driver state: the forest (tree model; dropped once a hook script is installed), the arena,
+whether branch tags are switched off, whether the case is scripted -/
+structure DState where
+  f : Forest := []
+  quiet : Bool := false
+  a : AState := {}
+  scripted : Bool := false
+
+def stepLine (rb g : Bool) (st : DState) (ln : String) : DState × List String :=
   let ws := words ln
   match ws with
   | [] => (st, [])
-  | "case" :: _ => (([], false), [ln.trimAscii.toString])
-  | ["quiet"] => ((st.1, true), ["P quiet"])
+  | "case" :: _ => ({}, [ln.trimAscii.toString])
+  | ["quiet"] => ({ st with quiet := true }, ["P quiet"])
   | _ =>
-    match stepOp rb st.1 ws with
-    | none => (st, ["bad-op"])
-    | some r => ((r.1, st.2), if st.2 then r.2.filter (fun l => !l.startsWith "B ") else r.2)
+    if st.quiet then
+      -- exhaustive small-scope runs: tree model only, no tags
+      match stepOp rb st.f ws with
+      | none => (st, ["bad-op"])
+      | some r => ({ st with f := r.1 }, r.2.filter (fun l => !l.startsWith "B "))
+    else if st.scripted || ws.head? == some "hook" then
+      match AState.step g st.a ws with
+      | none => (st, ["bad-op"])
+      | some (a', ls, differs) =>
+        ({ st with a := a', scripted := true },
+         ["B scripted" ++ (if differs then " guard-matters" else "") ++
+            (if ls.any (fun l => l.startsWith "P ret=X") then " thrown" else "")] ++ ls)
+    else
+      let ar := AState.step g st.a ws
+      match stepOp rb st.f ws with
+      | none => (st, (if ar.isSome && ws.head? != some "main" then ["M MODEL-MISMATCH tree=bad-op arena accepts"] else []) ++ ["bad-op"])
+      | some r =>
+        if ws.head? == some "main" then ({ st with f := r.1, scripted := false, a := st.a }, r.2)   -- (arena has no Main(); case ends here)
+        else
+          match ar with
+          | none => ({ st with f := r.1 }, ["M MODEL-MISMATCH arena=bad-op"] ++ r.2)
+          | some (a', ls, _) =>
+            let tl := r.2.filter (fun l => l.startsWith "P ")
+            let al := ls.filter (fun l => l.startsWith "P ")
+            ({ st with f := r.1, a := a' },
+             (if tl == al then [] else ["M MODEL-MISMATCH tree=" ++ " | ".intercalate tl ++ " arena=" ++ " | ".intercalate al]) ++ r.2)
 
 def main (args : List String) : IO Unit :=
-  runDriver (([], false) : DState) (stepLine (!(args.contains "orig")))
+  runDriver ({} : DState) (stepLine (!(args.contains "orig")) (!(args.contains "noguard")))
